@@ -17,7 +17,14 @@ empty value range and no value tokens, but not WHERE between the colon and the t
 empty range sits; the oracle therefore takes that one offset from the implementation's own
 answer (select-next asked from inside the name must select the value part of that
 declaration), admits it only when colon < offset <= terminator, and then demands every
-observation at every position to agree with the record completed by that offset."""
+observation at every position to agree with the record completed by that offset.
+
+The same stream writes the third way a body can end: `name:` + blanks / comments up to the closing
+brace (neither value nor `;`, EMPTY_VALUE_AT_BODY_END).  It is a declaration terminated by the end of
+the body: name and before as recorded, an empty value range admitted when colon < offset <= closing
+brace, no value tokens, after = that offset (a declaration without `;` ends with its value).  Bodies
+ending with a bare name (`a { b:c; color }`, `a { b:c; color; }`: no colon, not a declaration, not
+recorded) check that get_css_section lists declarations only."""
 import json
 import os
 
@@ -42,10 +49,11 @@ def load_corpus():
 
 
 # ------------------------------------------------------------------ declarations without a value
-# `name:` directly before the closing brace (no value AND no `;`): get_css_section() does not report
-# such a declaration at all although select_item_css() treats it like `name:;` (see the final report
-# of the strengthening round; same in upstream Emmet).  The class stays generated only on request.
-EMPTY_VALUE_AT_BODY_END = False
+# `name:` + blanks / comments up to the closing brace (no value AND no `;`): a declaration terminated by the
+# end of the body, so the statement wants it reported like `name:;` (name, before, after, empty value range
+# between colon and end of body, no value tokens).  get_css_section() used to drop it (repaired, see
+# known_findings.d/c17empty.json); select_item_css() always treated both forms alike.
+EMPTY_VALUE_AT_BODY_END = True
 
 EMPTY_FILL = ['', '', '', ' ', ' ', '  ', '\n', '\n    ', '\t', '\r\n', '\xa0']
 STRAY = [';', ';', ';;', '; ;', ';\n;']
@@ -85,9 +93,11 @@ def gen_empty_decl(rng, o, cover, terminated=True):
     return d
 
 
-def gen_items_ev(rng, o, cover, depth, max_depth, n_max, semis, top, p_empty, p_stray):
+def gen_items_ev(rng, o, cover, depth, max_depth, n_max, semis, top, p_empty, p_stray, p_bare=0.0, parent=None):
     """U.gen_items with two more alternatives: a declaration without a value, and stray `;`
-    (empty statements) wherever a declaration could start."""
+    (empty statements) wherever a declaration could start.  p_bare: a body may end with a bare
+    name (no colon: `a { b:c; color }`, `a { b:c; color; }`), which is NOT a declaration and is not
+    recorded; the enclosing rule is marked 'bare_tail'."""
     items = []
     n = rng.randint(1, n_max)
     for i in range(n):
@@ -102,7 +112,8 @@ def gen_items_ev(rng, o, cover, depth, max_depth, n_max, semis, top, p_empty, p_
             o.w(U.rnd_ws(rng))
             r['brace'] = o.pos
             o.w('{')
-            r['children'] = gen_items_ev(rng, o, cover, depth + 1, max_depth, n_max, semis, False, p_empty, p_stray)
+            r['children'] = gen_items_ev(rng, o, cover, depth + 1, max_depth, n_max, semis, False, p_empty, p_stray,
+                                         p_bare, r)
             r['close'] = o.pos
             o.w('}')
             r['end'] = o.pos
@@ -125,11 +136,23 @@ def gen_items_ev(rng, o, cover, depth, max_depth, n_max, semis, top, p_empty, p_
     if rng.random() < p_stray and (items[-1]['t'] == 'rule' or items[-1]['semi'] is not None):
         o.w(rng.choice(STRAY) + U.rnd_ws(rng))
         cover('gen:stray-semicolon')
+    if parent is not None and rng.random() < p_bare and (items[-1]['t'] == 'rule' or items[-1]['semi'] is not None):
+        o.w(rng.choice(U.NAMES) + rng.choice(['', '', ' ', '\n']))
+        if rng.random() < 0.5:
+            o.w(';' + U.rnd_ws(rng))
+            cover('gen:bare-name-at-body-end:with-semicolon')
+        else:
+            cover('gen:bare-name-at-body-end:before-closing-brace')
+        parent['bare_tail'] = True
     return items
 
 
 def has_empty(items):
     return any(n['t'] == 'decl' and n.get('empty') for n in U.preorder(items))
+
+
+def has_bare(items):
+    return any(n['t'] == 'rule' and n.get('bare_tail') for n in U.preorder(items))
 
 
 def gen_sheet_ev(rng, cover=lambda k: None, semis=True, max_depth=2, n_max=3):
@@ -139,7 +162,7 @@ def gen_sheet_ev(rng, cover=lambda k: None, semis=True, max_depth=2, n_max=3):
         o = U.Out()
         quiet = []
         items = gen_items_ev(rng, o, quiet.append, 0, max_depth, n_max, semis, True,
-                             rng.choice([0.3, 0.5, 0.8]), rng.choice([0.0, 0.1, 0.3]))
+                             rng.choice([0.3, 0.5, 0.8]), rng.choice([0.0, 0.1, 0.3]), rng.choice([0.0, 0.0, 0.6]))
         if has_empty(items):
             for k in quiet:
                 cover(k)
@@ -176,17 +199,26 @@ EMPTY_NOTE = (' [a declaration without a value: its empty value range may sit an
               'the terminator otherwise]')
 
 
+BARE_NOTE = (' [a body of this sheet ends with a bare name (no colon), which is not a declaration: get_css_section must not '
+             'list it; select_item_css, about which the statement says nothing here, is not judged on this sheet]')
+
+
 def oracle_doc(text, items, im):
     """first failing (pos, why, known_key) per function, over all positions; failures that
     belong to a listed finding class are kept apart (key != None)"""
     bad = {}
     note = ''
+    bare = has_bare(items)
     if has_empty(items):
         items = complete_empty(items, im)
         note = EMPTY_NOTE
+    if bare:
+        note += BARE_NOTE
     for pos in range(-1, len(text) + 2):
         got = {f: im[f][pos + 1] for f in FUNCS}
         for f, why, key in U.c17_oracle(text, items, pos, got):
+            if bare and f != 'section':
+                continue
             k = (f, key)
             if k not in bad:
                 bad[k] = (pos, why + note)
@@ -211,7 +243,12 @@ def run_css(ctx):
             'before, after, an empty value range and no value tokens, the offset of the empty range is taken from '
             'select-next asked one character into the name and admitted only when colon < offset <= terminator, then '
             'all three functions are compared at every position as for the first stream (and with the model). '
-            'Not generated (EMPTY_VALUE_AT_BODY_END off): `name:` with neither value nor `;` before the closing brace.')
+            'In the sheets of this stream without forced semicolons the last declaration of a body may also be `name:` + '
+            'blanks / comments up to the closing brace (neither value nor `;`): the admitted offsets for its empty value '
+            'are colon < offset <= closing brace, after = that offset. In a third of the sheets of this stream a body may '
+            'end with a bare name without colon (`a { b:c; color }`, `a { b:c; color; }`): not a declaration, not in the '
+            'record, so get_css_section must not list it; on these sheets only get_css_section is judged (and all three '
+            'functions are compared with the model).')
     ctx.cov['rule'] = (ctx.cov['rule'] + ' || ' if ctx.cov.get('rule') else '') + rule
     corpus = load_corpus()
     docs = [(c['text'], c['items']) for c in corpus]
